@@ -9,18 +9,32 @@ jobs
   {"op": "hello"}
       -> {"hashseed": ..., "hash_probe": hash("RC(=O)H") % 1000, "repo": ...}
   {"op": "tree", "cfgs": [<cfg dict> ...] | null (= the default list), "order": [positions],
-   "direct": bool}
+   "direct": bool,
+   "form": "objs" (default: list of FGConfig objects) | "dicts" (list of dictionaries, handed to FGConfigProvider as they are)
+           | "single" (ONE FGConfig object, not a list) | "default-none" (FGConfigProvider() / config=None: the default list),
+   "anti_as": null | "str" | "list"  (dict form: one-element anti-pattern lists written as a plain string / strings as lists),
+   "mapper_omitted": bool (the provider's own default mapper — the same PermutationMapper("R", ignore_case=True))}
       -> {"links": [[p, c] ...], "links_by_parents": [...], "roots": [...], "children": [[...] ...],
           "parents": [[...] ...], "n": n}          (positions refer to the list as given in the job)
        | {"raised": <kind>, "text": ...}
-  {"op": "query", "mol": {"kind": "smiles"|"pattern"|"graph", ...},
+  {"op": "query", "mol": {"kind": "smiles" ("via": "json" = restored from a JSON document | "decorated" = carrying attributes of
+                                   the caller's own: lists, tuples, dicts on nodes, edges and the graph) |"pattern"|"graph"  (a graph is built and handed to get)
+                         | "its" (ITS graph of a reaction SMILES built by the library's get_its; "labels": "tuple" (as built) |
+                                  "list" (every (g,h) bond label a list) | "json" (node_link_data -> JSON -> node_link_graph))
+                         | "string" (the STRING itself is handed to get: molecule SMILES, reaction SMILES, invalid SMILES)
+                         | "empty" (nx.Graph()) | "value" (any JSON value, handed to get as it is), ...},
+   "cfg_form": null (= list of FGConfig objects / no config argument for the default collection) | "dicts" | "provider" | "single"
+               | "default-dicts" | "default-objs",  "anti_as": null | "str" | "list",  "ctor": null | "positional",
    "obj": <key of the long-lived FGQuery object to use; built at its first use in this process>,
    "mapper": null (= FGQuery's own default) | [wildcard | null, ignore_case],
    "cfgs": null (= the default collection) | [<cfg dict> ...], "require_h": bool,
    "fresh": bool (default true: additionally ask a freshly built FGQuery with the same construction parameters)}
       -> {"same1": ans, "same2": ans, "fresh": ans | null, "before": snap, "after1": snap, "after2": snap,
-          "fresh_before": snap | null, "fresh_after": snap | null, "objects_built_before": [obj keys in creation order]}
-         (ans = [[name, [ids]] ...] | {"raised": ...})
+          "fresh_before": snap | null, "fresh_after": snap | null, "objects_built_before": [obj keys in creation order],
+          "changed": null | text (first difference between the value before and after a call)}
+         (ans = [[name, [ids]] ...] | {"raised": ...}: an exception IS the answer of that input, compared like any other;
+          snap = digest of the TYPE-SENSITIVE snapshot of the value handed to get: graph class, node order, node attributes,
+          adjacency order, edge attributes, graph attributes; list vs tuple vs numpy scalar are different values)
        | {"raised_in_setup": <kind>, "text": ..., "stage": "FGQuery(...)" | "molecule graph"}   -- NEVER dropped by the harness
 One process serves queries on SEVERAL long-lived objects built with different mappers / configurations /
 require_implicit_hydrogen, in the order in which the jobs arrive (harness/c06.py interleaves them in
@@ -45,7 +59,10 @@ def classify_exc(e):
 
 
 def raised(e):
-    return {"raised": classify_exc(e), "text": "%s: %s" % (type(e).__name__, str(e)[:200])}
+    kind = classify_exc(e)
+    if kind == "Other":
+        kind = "".join(ch for ch in type(e).__name__ if ch.isalnum() or ch == "_") or "Other"
+    return {"raised": kind, "text": "%s: %s" % (type(e).__name__, str(e)[:200])}
 
 
 def jsonable(x):
@@ -61,13 +78,59 @@ def jsonable(x):
     return x
 
 
+def typed(x):
+    """a JSON value that keeps the TYPE of every part: list / tuple / dict / set, python vs numpy scalars, int vs float"""
+    import numpy as np
+    if x is None or isinstance(x, (bool, str)):
+        return x
+    if isinstance(x, np.generic):
+        return ["np." + type(x).__name__, repr(x.item())]
+    if isinstance(x, int):
+        return x
+    if isinstance(x, float):
+        return ["float", repr(x)]
+    if isinstance(x, tuple):
+        return ["tuple"] + [typed(y) for y in x]
+    if isinstance(x, list):
+        return ["list"] + [typed(y) for y in x]
+    if isinstance(x, dict):
+        return ["dict"] + [[typed(k), typed(v)] for k, v in x.items()]
+    if isinstance(x, (set, frozenset)):
+        return [type(x).__name__] + sorted(json.dumps(typed(y)) for y in x)
+    return ["object:" + type(x).__name__, repr(x)[:200]]
+
+
 def snapshot(g):
-    """everything a caller could observe of a networkx graph: node order, attributes, adjacency order,
-    edge attributes"""
-    nodes = [[jsonable(n), sorted((str(k), jsonable(v)) for k, v in d.items())] for n, d in g.nodes(data=True)]
-    adj = [[jsonable(n), [[jsonable(v), sorted((str(k), jsonable(w)) for k, w in dd.items())]
-                          for v, dd in g.adj[n].items()]] for n in g.nodes]
-    return jsonable([nodes, adj, sorted((str(k), jsonable(v)) for k, v in g.graph.items())])
+    """everything a caller could observe of the value it handed to `get`, TYPE-SENSITIVE (a bond label [1, 0] and a bond
+    label (1, 0) are different): for a networkx graph its class, node order, node attributes, adjacency order (both
+    directions), edge attributes, graph attributes; any other value (SMILES string, non-graph) as it is"""
+    import networkx as nx
+    if not isinstance(g, nx.Graph):
+        return ["value", typed(g)]
+    attrs = lambda d: sorted([str(k), typed(v)] for k, v in d.items())
+    nodes = [[typed(n), attrs(d)] for n, d in g.nodes(data=True)]
+    adj = [[typed(n), [[typed(v), attrs(dd)] for v, dd in g.adj[n].items()]] for n in g.nodes]
+    return [type(g).__name__, nodes, adj, attrs(g.graph)]
+
+
+def digest(snap):
+    import hashlib
+    return hashlib.sha1(json.dumps(snap).encode()).hexdigest()[:20]
+
+
+def first_difference(a, b, path="value"):
+    """short text: where two snapshots differ (for the replay print-out)"""
+    if type(a) is not type(b):
+        return "%s: %r -> %r" % (path, a, b)
+    if isinstance(a, list):
+        if len(a) != len(b):
+            return "%s: length %d -> %d (%s -> %s)" % (path, len(a), len(b), json.dumps(a)[:120], json.dumps(b)[:120])
+        for i, (x, y) in enumerate(zip(a, b)):
+            if x != y:
+                return first_difference(x, y, "%s[%d]" % (path, i)) if isinstance(x, list) and isinstance(y, list) and len(json.dumps(x)) > 80 \
+                    else "%s[%d]: %s -> %s" % (path, i, json.dumps(x)[:160], json.dumps(y)[:160])
+        return None
+    return None if a == b else "%s: %r -> %r" % (path, a, b)
 
 
 def mk_mapper():
@@ -82,82 +145,192 @@ def mk_cfgs(cfgs):
     return [FGConfig(**c) for c in cfgs]
 
 
+def anti_as(dicts, how):
+    """the same configuration dictionaries with the anti-patterns WRITTEN differently: how="str": every one-element list
+    as a plain string (`anti_pattern: str | list[str]`), how="list": every plain string as a one-element list"""
+    out = []
+    for d in dicts:
+        d = dict(d)
+        a = d.get("anti_pattern")
+        if how == "str" and isinstance(a, list) and len(a) == 1:
+            d["anti_pattern"] = a[0]
+        elif how == "list" and isinstance(a, str):
+            d["anti_pattern"] = [a]
+        elif isinstance(a, list):
+            d["anti_pattern"] = list(a)
+        out.append(d)
+    return out
+
+
 def job_tree(job):
-    from fgutils.fgconfig import FGConfigProvider, build_config_tree_from_list
-    try:
-        objs = mk_cfgs(job.get("cfgs"))
-    except Exception as e:  # malformed pattern
-        return {"raised_in_config": classify_exc(e), "text": str(e)[:200]}
-    n = len(objs)
+    from fgutils.fgconfig import FGConfig, FGConfigProvider, build_config_tree_from_list, _default_fg_config
+    form = "direct" if job.get("direct") else (job.get("form") or "objs")
+    dicts = anti_as(list(_default_fg_config) if job.get("cfgs") is None else job["cfgs"], job.get("anti_as"))
+    n = len(dicts)
     order = job.get("order") or list(range(n))
-    pos = {id(o): i for i, o in enumerate(objs)}
-    lst = [objs[i] for i in order]
+    objs = None
+    if form in ("objs", "direct", "single"):
+        try:
+            objs = mk_cfgs(dicts)
+        except Exception as e:  # malformed pattern
+            return {"raised_in_config": classify_exc(e), "text": str(e)[:200]}
     mapper = mk_mapper()
+    kw = {} if job.get("mapper_omitted") else {"mapper": mapper}
     try:
-        if job.get("direct"):
+        if form == "direct":
+            lst = [objs[i] for i in order]
             roots = build_config_tree_from_list(lst, mapper)
+            given = lst
         else:
-            prov = FGConfigProvider(lst, mapper=mapper)
+            if form == "objs":
+                prov = FGConfigProvider([objs[i] for i in order], **kw)
+            elif form == "dicts":
+                prov = FGConfigProvider([dicts[i] for i in order], **kw)
+            elif form == "single":
+                if n != 1:
+                    return {"error": "form 'single' needs a one-element list"}
+                prov = FGConfigProvider(objs[0], **kw)
+            elif form == "default-none":
+                if job.get("cfgs") is not None or list(order) != list(range(n)):
+                    return {"error": "form 'default-none' is the default list in its own order"}
+                prov = FGConfigProvider(**kw)
+            else:
+                return {"error": "unknown form %r" % (form,)}
             roots = prov.get_tree()
             again = prov.get_tree()
             if again is not roots:
                 # a rebuilt tree is fine for the relation; report the second one as well below
                 roots = again
+            given = list(prov.config_list)
     except Exception as e:
         return raised(e)
+    # the provider's configuration objects, in the order in which the list was given
+    if len(given) != n or any(c.pattern_str != dicts[i]["pattern"] or c.name != dicts[i]["name"] for c, i in zip(given, order)):
+        return {"raised": "ConfigListChanged", "text": "the provider's config_list is not the list it was given"}
+    pos = {id(c): i for c, i in zip(given, order)}
     children = [None] * n
     parents = [None] * n
     seen = set()
     stack = list(roots)
-    while stack:
-        node = stack.pop()
-        i = pos[id(node.fgconfig)]
-        if i in seen:
-            continue
-        seen.add(i)
-        children[i] = [pos[id(c.fgconfig)] for c in node.children]
-        parents[i] = [pos[id(p.fgconfig)] for p in node.parents]
-        stack.extend(node.children)
+    try:
+        while stack:
+            node = stack.pop()
+            i = pos[id(node.fgconfig)]
+            if i in seen:
+                continue
+            seen.add(i)
+            children[i] = [pos[id(c.fgconfig)] for c in node.children]
+            parents[i] = [pos[id(p.fgconfig)] for p in node.parents]
+            stack.extend(node.children)
+        root_pos = [pos[id(r.fgconfig)] for r in roots]
+    except KeyError:
+        return {"raised": "ForeignNode", "text": "the tree contains a configuration object that is not in the provider's config_list"}
     links = sorted([i, j] for i in range(n) if children[i] is not None for j in children[i])
     links_bp = sorted([i, j] for j in range(n) if parents[j] is not None for i in parents[j])
     return {"n": n, "links": links, "links_by_parents": links_bp,
-            "roots": [pos[id(r.fgconfig)] for r in roots], "children": children, "parents": parents,
+            "roots": root_pos, "children": children, "parents": parents,
             "reached": sorted(seen),
-            "names": [o.name for o in objs] if job.get("cfgs") is None else None}
+            "names": [d["name"] for d in dicts] if job.get("cfgs") is None else None}
 
 
 _objs = {}
 
 
 def mk_graph(mol):
+    """the VALUE that is handed to FGQuery.get (mostly a graph; for kind "string" / "value" the value itself)"""
     import networkx as nx
     kind = mol["kind"]
     if kind == "smiles":
         from fgutils.rdkit import smiles_to_graph
-        return smiles_to_graph(mol["s"])
+        g = smiles_to_graph(mol["s"])
+        if mol.get("via") == "json":        # the graph as a caller restores it from a JSON document
+            g = nx.node_link_graph(json.loads(json.dumps(nx.node_link_data(g, edges="edges"))), edges="edges")
+        elif mol.get("via") == "decorated":  # the graph as a caller really holds it: with attributes of its own
+            g.graph["source"] = {"smiles": mol["s"], "tags": ["a", ("b", 1)]}
+            for k, n in enumerate(g.nodes):
+                g.nodes[n]["charge"] = 0
+                g.nodes[n]["my_labels"] = [k, (k, k + 1)]
+            for k, (u, v) in enumerate(g.edges):
+                g[u][v]["note"] = ("ring", [k]) if k % 2 else {"k": [k]}
+        return g
     if kind == "pattern":
         from fgutils.parse import Parser
         return Parser().parse(mol["s"], idx_offset=mol.get("offset", 0))
+    if kind == "string":
+        return str(mol["s"])
+    if kind == "value":
+        return mol["v"]
+    if kind == "empty":
+        return nx.Graph()
+    if kind == "its":
+        # the ITS graph of a reaction, built by the library itself; restored from JSON its (g, h) labels are LISTS
+        from fgutils.rdkit import smiles_to_graph
+        from fgutils.its import get_its
+        its = get_its(*smiles_to_graph(mol["s"]))
+        labels = mol.get("labels", "tuple")
+        if labels == "json":
+            its = nx.node_link_graph(json.loads(json.dumps(nx.node_link_data(its, edges="edges"))), edges="edges")
+        elif labels == "list":
+            for u, v, b in list(its.edges(data="bond")):
+                if isinstance(b, tuple):
+                    its[u][v]["bond"] = list(b)
+        return its
     g = nx.Graph()
     for n, sym in mol["nodes"]:
-        g.add_node(n, symbol=sym)
+        if sym is None and mol.get("no_symbol_attr"):
+            g.add_node(n)
+        else:
+            g.add_node(n, symbol=sym)
     for u, v, b in mol["edges"]:
-        g.add_edge(u, v, bond=b)
+        if isinstance(b, list) and mol.get("tuple_bonds"):
+            b = tuple(b)
+        if b is None and mol.get("no_bond_attr"):
+            g.add_edge(u, v)
+        else:
+            g.add_edge(u, v, bond=b)
     return g
 
 
 def mk_query(job):
+    """FGQuery built from the job's construction parameters, in the FORM the job names (all forms of one configuration
+    must give the same answers)"""
     from fgutils.query import FGQuery
+    from fgutils.fgconfig import FGConfig, FGConfigProvider, _default_fg_config
+    from fgutils.permutation import PermutationMapper
     cfgs = job.get("cfgs")
-    kw = {}
-    if not job.get("require_h", True):
-        kw["require_implicit_hydrogen"] = False
-    if cfgs is not None:
-        kw["config"] = mk_cfgs(cfgs)
+    form = job.get("cfg_form")
+    rh = bool(job.get("require_h", True))
     m = job.get("mapper")
-    if m is not None:
-        from fgutils.permutation import PermutationMapper
-        kw["mapper"] = PermutationMapper(wildcard=m[0], ignore_case=bool(m[1]))
+    mapper = None if m is None else PermutationMapper(wildcard=m[0], ignore_case=bool(m[1]))
+    config = None
+    if form in (None, "objs"):
+        config = None if cfgs is None else mk_cfgs(cfgs)
+    elif form == "dicts":
+        config = anti_as(cfgs, job.get("anti_as"))
+    elif form == "single":
+        if len(cfgs) != 1:
+            raise RuntimeError("form 'single' needs a one-element list")
+        config = FGConfig(**cfgs[0])
+    elif form == "default-dicts":
+        config = anti_as(list(_default_fg_config), job.get("anti_as"))
+    elif form == "default-objs":
+        config = mk_cfgs(None)
+    elif form == "provider":
+        # the provider must use the mapper the query uses (FGQuery hands ITS mapper to a provider it builds itself)
+        pm = mapper if mapper is not None else PermutationMapper(wildcard="R", ignore_case=True)
+        mapper = pm
+        config = FGConfigProvider(None if cfgs is None else anti_as(cfgs, job.get("anti_as")), mapper=pm)
+    else:
+        raise RuntimeError("unknown cfg_form %r" % (form,))
+    if job.get("ctor") == "positional":
+        return FGQuery(mapper, config, rh)
+    kw = {}
+    if not rh:
+        kw["require_implicit_hydrogen"] = False
+    if config is not None:
+        kw["config"] = config
+    if mapper is not None:
+        kw["mapper"] = mapper
     return FGQuery(**kw)
 
 
@@ -180,27 +353,41 @@ def job_query(job):
         g = mk_graph(job["mol"])
     except Exception as e:
         return {"raised_in_setup": classify_exc(e), "text": "%s: %s" % (type(e).__name__, str(e)[:200]), "stage": stage}
-    before = snapshot(g)
+    changed = None
+    s0 = snapshot(g)
     a1 = ans(q, g)
-    after1 = snapshot(g)
+    s1 = snapshot(g)
     a2 = ans(q, g)
-    after2 = snapshot(g)
-    out = {"same1": a1, "same2": a2, "fresh": None, "before": before, "after1": after1, "after2": after2,
+    s2 = snapshot(g)
+    for x in (s1, s2):
+        if changed is None and x != s0:
+            changed = first_difference(s0, x)
+    out = {"same1": a1, "same2": a2, "fresh": None, "before": digest(s0), "after1": digest(s1), "after2": digest(s2),
            "fresh_before": None, "fresh_after": None, "objects_built_before": built_before}
     if job.get("fresh", True):
         try:
             g2 = mk_graph(job["mol"])
-            out["fresh_before"] = snapshot(g2)
+            f0 = snapshot(g2)
             fq = mk_query(job)
         except Exception as e:
             return {"raised_in_setup": classify_exc(e), "text": "%s: %s" % (type(e).__name__, str(e)[:200]),
                     "stage": "fresh FGQuery(...)"}
         out["fresh"] = ans(fq, g2)
-        out["fresh_after"] = snapshot(g2)
+        f1 = snapshot(g2)
+        out["fresh_before"] = digest(f0)
+        out["fresh_after"] = digest(f1)
+        if changed is None and f1 != f0:
+            changed = first_difference(f0, f1)
+    out["changed"] = changed
     return out
 
 
 def main():
+    try:    # invalid SMILES are part of the inputs: keep RDKit's parse errors off stderr
+        from rdkit import RDLogger
+        RDLogger.DisableLog("rdApp.*")
+    except Exception:
+        pass
     for line in sys.stdin:
         line = line.strip()
         if not line:
